@@ -63,8 +63,8 @@ RULE = ('random class diagrams as for C14, every second one with XML-special / n
 EXHAUSTIVE = {'quick': False, 'thorough': False}
 ASSUMPTIONS = [
     'EP_PKGREF package references (the `for ep_pkg in many(ep_pkg).EP_PKG[1402, ...]` loop of is_contained_in) are not '
-    'in the Lean model; family pkgref checks them by D only, with the referred package never a global one (a data type of a '
-    'global package referred to from the component is declared twice: candidate finding reported); acyclic containment and acyclic user-type chains (XWF: TreeOk, DtChainOk) - Python does '
+    'in the Lean model; family pkgref checks them by D only (a data type of a global package referred to from the component '
+    'is declared once: fixed finding); acyclic containment and acyclic user-type chains (XWF: TreeOk, DtChainOk) - Python does '
     'not terminate otherwise',
     'the EMPTY data type name is in the domain (modelled: omitted wherever Python tests the name for truthiness)',
     'domain: well-formed populations as for C14; data type names are unique (xs:simpleType names must be)',
@@ -206,9 +206,9 @@ def generate(ctx):
             yield {'src': 'synth', 'diagram': dd, 'comp': name, 'edits': [], 'entry': 'main',
                    'perm': r.randint(1, 1 << 30), 'nospec': True}
     # ---- package references (EP_PKGREF, R1402): classes and data types of a package REFERRED to from inside the component
-    #      belong to its scope.  D only (the Lean model has no package references).  PKGREF_TO_GLOBAL = False: the referred
-    #      package is never a global one - a data type of a global package referred to from the component is both "global" and
-    #      "contained" for build_schema and gets declared TWICE (reported to the coordinator as a candidate finding).
+    #      belong to its scope.  D only (the Lean model has no package references).  The referred package may be a GLOBAL one:
+    #      its data types are then both "global" and "contained" and must still be declared once (fixed finding: build_schema
+    #      declared them twice).
     for j in range(ctx.pick(120, 800)):
         r = rng.fork('pkgref', j)
         base = E.gen_diagram(r, max_classes=4, empty_enum=True)
@@ -315,7 +315,7 @@ def _serialised_ok(el, got, fail, when=''):
              % (when, json.dumps(t1), json.dumps(t2), json.dumps(got)))
 
 
-PKGREF_TO_GLOBAL = False
+PKGREF_TO_GLOBAL = True
 USAGE_ERRORS = ('no-component', 'no-output', 'no-model')
 
 
